@@ -166,7 +166,7 @@ theorem views_are_views (sec : Bytes) (ops : List Op) (i : Nat) (c : Cur)
     (step sharedImpl m e valid lossy
         (runHist sharedImpl m e valid lossy (St.init (Cur.ofSec sec)) ops).2 (.toSlice i)).1 =
       { res := .ok (.bytes (sec.extract c.off (c.off + c.len))),
-        tgt := some { off := c.off, len := c.len, det := c.det }, new := none } := by
+        tgt := some { off := c.off, len := c.len }, new := none } := by
   have hw : Win sec c :=
     (runHist_all (sharedImpl_safe sec) m e valid lossy ops _ (St.All.init (Win.ofSec sec))).get hc
   obtain ⟨h1, h2⟩ := hw
@@ -184,24 +184,37 @@ window `s` (same section) then looking up `r`'s id in `s` gives exactly `r`'s of
 resolves to `k` is the id of position `s.off + k`, and `k ≤ s.len`. -/
 theorem offset_id_inverse (s r : Cur) (h1 : s.off ≤ r.off) (h2 : r.off + r.len ≤ s.off + s.len) :
     Shared.lookupOffsetId s (Shared.offsetId r) = some (r.off - s.off) ∧
-    Shared.offsetFrom m r s = .ok (some (r.off - s.off)) ∧
+    Shared.offsetFrom m r s = .ok (r.off - s.off) ∧
     (∀ id k, Shared.lookupOffsetId s id = some k → id = .inSec (s.off + k) ∧ k ≤ s.len) :=
   ⟨ptrLookup_offsetId h1 (by omega), ptrOffsetFrom_within m h1 h2, fun _ _ h => ptrLookup_some h⟩
 
-/-- the same for `EndianSlice` readers that have not been detached by `empty()` -/
-theorem offset_id_inverse_slice (s r : Cur) (hs : s.det = false) (hr : r.det = false)
-    (h1 : s.off ≤ r.off) (h2 : r.off + r.len ≤ s.off + s.len) :
+/-- the same for `EndianSlice` readers -/
+theorem offset_id_inverse_slice (s r : Cur) (h1 : s.off ≤ r.off) (h2 : r.off + r.len ≤ s.off + s.len) :
     Slice.lookupOffsetId s (Slice.offsetId r) = some (r.off - s.off) ∧
-    Slice.offsetFrom m r s = .ok (some (r.off - s.off)) := by
-  simp only [Slice.lookupOffsetId, Slice.offsetId, Slice.offsetFrom, hs, hr]
-  exact ⟨ptrLookup_offsetId h1 (by omega), by simpa using ptrOffsetFrom_within m h1 h2⟩
+    Slice.offsetFrom m r s = .ok (r.off - s.off) :=
+  ⟨ptrLookup_offsetId h1 (by omega), ptrOffsetFrom_within m h1 h2⟩
+
+/-- **`empty()` keeps the reader's position** (both concrete readers, the repaired C10-1): an
+emptied reader is still a window of the section, so if it lay inside the window `s` before,
+`offset_from(s)` and `lookup_offset_id` of its id still report its position afterwards. -/
+theorem empty_keeps_position (s r : Cur) (h1 : s.off ≤ r.off) (h2 : r.off + r.len ≤ s.off + s.len) :
+    Slice.empty r = { r with len := 0 } ∧ Shared.empty r = { r with len := 0 } ∧
+    Slice.offsetFrom m (Slice.empty r) s = .ok (r.off - s.off) ∧
+    Slice.lookupOffsetId s (Slice.offsetId (Slice.empty r)) = some (r.off - s.off) ∧
+    Shared.offsetFrom m (Shared.empty r) s = .ok (r.off - s.off) ∧
+    Shared.lookupOffsetId s (Shared.offsetId (Shared.empty r)) = some (r.off - s.off) := by
+  have he : Shared.empty r = { r with len := 0 } := Shared.empty_eq r
+  have hs := offset_id_inverse_slice m s { r with len := 0 } h1 (by simp only; omega)
+  refine ⟨rfl, he, hs.2, hs.1, ?_, ?_⟩
+  · rw [he]; exact hs.2
+  · rw [he]; exact hs.1
 
 /-- **Along every history**: the id of any live reader resolves, against the section reader, to
 that reader's section offset — and `offset_from(section)` agrees. -/
 theorem offset_id_inverse_hist (sec : Bytes) (ops : List Op) (i : Nat) (c : Cur)
     (hc : (runHist sharedImpl m e valid lossy (St.init (Cur.ofSec sec)) ops).2.get i = some c) :
     Shared.lookupOffsetId (Cur.ofSec sec) (Shared.offsetId c) = some c.off ∧
-    Shared.offsetFrom m c (Cur.ofSec sec) = .ok (some c.off) := by
+    Shared.offsetFrom m c (Cur.ofSec sec) = .ok c.off := by
   have hw : Win sec c :=
     (runHist_all (sharedImpl_safe sec) m e valid lossy ops _ (St.All.init (Win.ofSec sec))).get hc
   have := offset_id_inverse m (Cur.ofSec sec) c (by simp [Cur.ofSec]) (by simpa [Cur.ofSec] using hw.2)
@@ -223,12 +236,11 @@ theorem kinds_bisimilar_reloc (sec : Bytes) (ops : List Op) :
     (StRel.init ⟨rfl, rfl, Win.ofSec sec⟩)
 
 /-- **Borrowed, shared-buffer and identity-relocating readers give identical observation traces**
-— PARTIAL: for every history that does not contain `empty`.
-Full statement (false on the unchanged tree, see `slice_empty_detaches`):
-`∀ ops, trace sliceImpl … ops = trace sharedImpl … ops`.
-What is missing is exactly known finding C10-1: `EndianSlice::empty()` assigns the static `&[]`
-instead of `&self.slice[..0]`, which moves the reader's pointer out of the section. -/
-theorem kinds_bisimilar_partial (sec : Bytes) (ops : List Op) (hne : NoEmpty ops) :
+for EVERY history (full strength since the repair of C10-1; before it `EndianSlice::empty()`
+assigned the static `&[]` and the statement only held for histories without `empty`):
+`EndianSlice`, `RelocateReader<EndianSlice>` and `RelocateReader<EndianReader>` with the identity
+relocation all produce the trace of `EndianReader` (`Rc`, `Arc`, custom buffers). -/
+theorem kinds_bisimilar (sec : Bytes) (ops : List Op) :
     trace sliceImpl (Cur.ofSec sec) m e valid lossy ops =
       trace sharedImpl (Cur.ofSec sec) m e valid lossy ops ∧
     trace (relocImpl sliceImpl Rel.id) (RCur.new (Cur.ofSec sec)) m e valid lossy ops =
@@ -237,26 +249,25 @@ theorem kinds_bisimilar_partial (sec : Bytes) (ops : List Op) (hne : NoEmpty ops
       trace sharedImpl (Cur.ofSec sec) m e valid lossy ops := by
   have h1 : trace sliceImpl (Cur.ofSec sec) m e valid lossy ops =
       trace sharedImpl (Cur.ofSec sec) m e valid lossy ops :=
-    runHist_sim sim_slice_shared m e valid lossy ops (Or.inr hne) (StRel.init ⟨rfl, rfl⟩)
+    runHist_sim sim_slice_shared m e valid lossy ops
+      (Or.inl (fun s t hst => by rw [hst]; exact empty_slice_shared t)) (StRel.init rfl)
   refine ⟨h1, ?_, kinds_bisimilar_reloc m e valid lossy sec ops⟩
   rw [← h1]
-  have hoff : ∀ (m : Mode) (t : Cur), WinA sec t → ∃ o, sliceImpl.offsetFrom m t (Cur.ofSec sec) = .ok o := by
-    intro m t ht
-    refine ⟨some (t.off - 0), ?_⟩
-    have := ptrOffsetFrom_within m (s := Cur.ofSec sec) (r := t) (by simp [Cur.ofSec])
-      (by simpa [Cur.ofSec] using ht.1.2)
-    simpa [sliceImpl, Core.withDefaults, sliceCore, Slice.offsetFrom, ht.2, Cur.ofSec] using this
-  have hsim := sim_reloc_id (sct := Cur.ofSec sec) (sliceCore_safeA sec).withDefaults hoff
+  have hoff : ∀ (m : Mode) (t : Cur), Win sec t → ∃ o, sliceImpl.offsetFrom m t (Cur.ofSec sec) = .ok o :=
+    fun m t ht => ⟨_, ptrOffsetFrom_within m (by simp [Cur.ofSec]) (by simpa [Cur.ofSec] using ht.2)⟩
+  have hsim := sim_reloc_id (sct := Cur.ofSec sec) (sliceImpl_safe sec).toImplSafeNE hoff
     Slice.split_eq_splitTS
-  exact runHist_sim hsim m e valid lossy ops (Or.inr hne)
-    (StRel.init ⟨rfl, rfl, Win.ofSec sec, rfl⟩)
+  exact runHist_sim hsim m e valid lossy ops
+    (Or.inl (fun s t ⟨h1, h2, h3⟩ => ⟨by simp [relocImpl, h1], h2, (sliceImpl_safe sec).empty t h3⟩))
+    (StRel.init ⟨rfl, rfl, Win.ofSec sec⟩)
 
-/-- The full statement fails: after `empty()` the borrowed reader's offset id is no longer an
-address in the section, the shared-buffer reader's is (known finding C10-1; the harness
-reproduces this witness on the real readers). -/
-theorem slice_empty_detaches :
-    trace sliceImpl (Cur.ofSec [1, 2]) .debug .little (fun _ => true) id [.empty 0, .offId 0] ≠
-      trace sharedImpl (Cur.ofSec [1, 2]) .debug .little (fun _ => true) id [.empty 0, .offId 0] := by
+/-- the former witness of C10-1 (`empty` then `offset_id`), now a regression: equal traces, and
+the emptied borrowed reader's id is still the section offset -/
+theorem empty_offset_id_regression :
+    trace sliceImpl (Cur.ofSec [1, 2]) .debug .little (fun _ => true) id [.skip 0 1, .empty 0, .offId 0] =
+      trace sharedImpl (Cur.ofSec [1, 2]) .debug .little (fun _ => true) id [.skip 0 1, .empty 0, .offId 0] ∧
+    ((trace sliceImpl (Cur.ofSec [1, 2]) .debug .little (fun _ => true) id
+      [.skip 0 1, .empty 0, .offId 0]).map (·.res))[2]? = some (.ok (.addr (.inSec 1))) := by
   decide
 
 /-! ## (5) `relocate_delegates` -/
@@ -285,7 +296,7 @@ theorem relocate_consults (sec : Bytes) (rel : Rel) (n : Nat) (s : RCur Cur)
        | (.err x, r') => (.err x, { s with rdr := r' })
        | (.panic w, r') => (.panic w, { s with rdr := r' })
        | (.diverge, r') => (.diverge, { s with rdr := r' })) := by
-  have hoff : sharedImpl.offsetFrom m s.rdr s.sect = .ok (some s.rdr.off) := by
+  have hoff : sharedImpl.offsetFrom m s.rdr s.sect = .ok s.rdr.off := by
     rw [hs]
     have := ptrOffsetFrom_within m (s := Cur.ofSec sec) (r := s.rdr) (by simp [Cur.ofSec])
       (by simpa [Cur.ofSec] using hw)
@@ -306,16 +317,11 @@ example : (trace sharedImpl (Cur.ofSec [0x61, 0x62, 0, 0xe5, 0x8e, 0x26, 7]) .de
     Utf8.valid Utf8.lossy
     [.nts 0, .toStr 1, .uleb 0, .split 0 9, .split 0 1, .offId 2, .lookup 0 0, .offFrom 2 0]).map
       (fun o => (o.res, o.new)) =
-    [(.ok .rdr, some ⟨0, 2, false⟩), (.ok (.bytes [0x61, 0x62]), none), (.ok (.nat 624485), none),
-     (.err .rUnexpectedEof, none), (.ok .rdr, some ⟨6, 1, false⟩), (.ok (.addr (.inSec 6)), none),
+    [(.ok .rdr, some ⟨0, 2⟩), (.ok (.bytes [0x61, 0x62]), none), (.ok (.nat 624485), none),
+     (.err .rUnexpectedEof, none), (.ok .rdr, some ⟨6, 1⟩), (.ok (.addr (.inSec 6)), none),
      (.ok (.opt none), none), (.panic "assertion failed: base_ptr <= ptr", none)] := by decide
 
-example : NoEmpty [.nts 0, .toStr 1, .uleb 0, .split 0 9] := by
-  intro op hop i
-  simp at hop
-  rcases hop with rfl | rfl | rfl | rfl <;> simp
-
 example : Shared.split 2 (Cur.ofSec [1, 2, 3]) =
-    (.ok ⟨[1, 2, 3], 0, 2, false⟩, ⟨[1, 2, 3], 2, 1, false⟩) := by decide
+    (.ok ⟨[1, 2, 3], 0, 2⟩, ⟨[1, 2, 3], 2, 1⟩) := by decide
 
 end Gimli.Props.C10
